@@ -25,6 +25,7 @@ func init() {
 			"(stats-count-by-kind) the line statistics count an Add chunk under Addition only and a Delete chunk under Deletion only, and an unterminated last line counts as a line; " +
 			"(no-newline-marker) a line without a final newline is followed by git's `\\ No newline at end of file` marker, and only such a line; " +
 			"(header-side-agreement) in the file header `old mode`, `rename from`, `deleted file mode` and the left of `index a..b` and of the path lines are computed from the old file only, `new mode`, `rename to`, `new file mode` and the right-hand parts from the new file only, the missing side being the zero hash and /dev/null. " +
+			"(chunks-are-whole-lines-by-construction) utils/diff hands both whole texts to diffmatchpatch's line mode and returns what DiffCharsToLines gives back, and builds no chunk by hand (anything else is reported as unresolved: line alignment of a hand-made chunk is a value question); and within no-newline-marker, every path of op.writeTo that has not found the line terminated writes the marker (the decision depends on the line's own text only). " +
 			"Not decided: the pairing of lines (utils/diff), hunk boundaries and context, that numstat equals git's for inputs where git's diff algorithm picks another pairing.",
 		Assumptions: []string{},
 		Run:         runC45,
@@ -33,6 +34,7 @@ func init() {
 
 func runC45(c *Ctx) {
 	p := c.P
+	checkLineModePipeline(c, "chunks-are-whole-lines-by-construction")
 	const r1 = "binary-flag-independent-of-chunks"
 	const r2 = "binary-flag-from-content-sniffing"
 	const r3 = "hunk-counts-follow-ops"
@@ -456,6 +458,36 @@ func runC45(c *Ctx) {
 			}
 			return hasMarker(n)
 		})
+		// every path on which the line was not found terminated writes the marker: the decision depends on the line's own text only
+		{
+			terminated := func(b *cfg.Block, i int) bool {
+				for _, fact := range f.EdgeFacts(b, i) {
+					if fact.Truth && endsNL(info, fact.Atom) {
+						return true
+					}
+				}
+				return false
+			}
+			isExitNode := func(n ast.Node) bool {
+				if isReturn(n) {
+					return true
+				}
+				for _, b := range f.G.Blocks {
+					if b.Live && len(b.Succs) == 0 && len(b.Nodes) > 0 && b.Nodes[len(b.Nodes)-1] == n {
+						return true
+					}
+				}
+				return false
+			}
+			stmtHasMarker := func(n ast.Node) bool {
+				_, ok := n.(ast.Stmt)
+				return ok && hasMarker(n)
+			}
+			h := f.Search(SearchOpts{Starts: []Loc{f.Entry()}, Sink: isExitNode, Barrier: stmtHasMarker, BlockEdge: terminated,
+				BlockSink: func(b *cfg.Block) bool { return b.Live && len(b.Succs) == 0 && len(b.Nodes) == 0 }})
+			c.Check(h == nil, r6, fi.Name()+":marker-follows-every-unterminated-line", fi.Decl.Pos(), orStr(ifStr(h != nil, "a path on which the line was not found to end in a newline leaves the function without writing the marker: whether a line gets its marker depends on something else than its own text, and git apply reads the old or new file as newline-terminated"),
+				"every path that has not found the line terminated writes the marker"))
+		}
 		c.Check(len(locs) > 0, r6, fi.Name()+":marker-written", fi.Decl.Pos(), orStr(ifStr(len(locs) == 0, "nothing writes `"+marker+"`: a last line without a newline is indistinguishable from one with it, and git apply appends a newline"), "the marker is written"))
 		for i, loc := range locs {
 			h := f.UnguardedPath(FactGuard(func(f *Flow, fact Fact) bool { return !fact.Truth && endsNL(f.Info, fact.Atom) }), loc)
@@ -557,6 +589,84 @@ func runC45(c *Ctx) {
 			c.Check(nk >= 6, r7, fi.Name()+":keyword-lines", fi.Decl.Pos(), orStr(ifStr(nk < 6, "only "+itoa(nk)+" of the 6 extended-header lines (old/new mode, rename from/to, new/deleted file mode) were found"), "all 6 extended-header lines found"))
 			c.Check(ni >= 3 && np >= 3, r7, fi.Name()+":index-and-path-lines", fi.Decl.Pos(), orStr(ifStr(ni < 3 || np < 3, "index lines "+itoa(ni)+"/3, path lines "+itoa(np)+"/3 found"), "index and path lines found for change, addition and deletion"))
 		}
+	}
+}
+
+// checkLineModePipeline (C45): the unified encoder prints one patch line per line of a chunk, so every chunk must consist
+// of whole lines. utils/diff guarantees that by construction: both texts go, whole, through diffmatchpatch's line mode
+// (DiffLinesToRunes/DiffLinesToChars → DiffMain → DiffCharsToLines), whose output texts are concatenations of input
+// lines. Decided: in DoWithTimeout the arguments of the line-mode front end are the function's own text parameters, what
+// is returned comes from DiffCharsToLines, and no function of the package builds a diffmatchpatch.Diff by hand. A chunk
+// assembled outside that pipeline (a stripped common prefix or suffix re-attached) is reported as unresolved, not as a
+// violation: whether its boundaries are line boundaries is a value question this rule cannot decide.
+func checkLineModePipeline(c *Ctx, rule string) {
+	p := c.P
+	const short = "utils/diff"
+	fi := c.MustFunc(rule, short+".DoWithTimeout")
+	if fi == nil {
+		return
+	}
+	c.Analysed(fi)
+	info := fi.Pkg.TypesInfo
+	params := map[types.Object]bool{}
+	for _, po := range paramObjs(info, fi.Decl) {
+		if b, ok := po.Type().Underlying().(*types.Basic); ok && b.Info()&types.IsString != 0 {
+			params[po] = true
+		}
+	}
+	nFront, back := 0, false
+	bad := token.NoPos
+	ast.Inspect(fi.Decl.Body, func(n ast.Node) bool {
+		call, ok := n.(*ast.CallExpr)
+		if !ok {
+			return true
+		}
+		fn := Callee(info, call)
+		if fn == nil {
+			return true
+		}
+		switch fn.Name() {
+		case "DiffLinesToRunes", "DiffLinesToChars":
+			nFront++
+			for _, a := range call.Args {
+				if o := objOf(info, a); o == nil || !params[o] {
+					bad = a.Pos()
+				}
+			}
+		case "DiffCharsToLines":
+			back = true
+		}
+		return true
+	})
+	ok := nFront == 1 && back && !bad.IsValid()
+	if ok {
+		c.Hold(rule, fi.Name()+":whole-texts-through-line-mode", fi.Decl.Pos(), "both texts go whole through the line-mode front end and the result comes back through DiffCharsToLines")
+	} else {
+		c.Unresolved(rule, fi.Name()+":whole-texts-through-line-mode", orPos(bad, fi.Decl.Pos()), "the texts handed to diffmatchpatch's line mode are not the function's whole parameters (or the line-mode round trip is gone): chunks are no longer whole lines by construction, and whether they still are is not decidable here; a chunk that ends mid-line is printed as separate patch lines and git apply refuses the patch")
+	}
+	// no hand-made chunk in the package
+	dmp := p.importedPkg("github.com/sergi/go-diff/diffmatchpatch")
+	n := 0
+	for _, f := range p.FuncsIn(short) {
+		if f.Decl.Body == nil || p.isTestFile(f.Decl.Pos()) {
+			continue
+		}
+		finfo := f.Pkg.TypesInfo
+		ast.Inspect(f.Decl.Body, func(nd ast.Node) bool {
+			cl, ok := nd.(*ast.CompositeLit)
+			if !ok || dmp == nil {
+				return true
+			}
+			tv := finfo.Types[cl]
+			if nt, ok := tv.Type.(*types.Named); ok && nt.Obj().Pkg() == dmp && nt.Obj().Name() == "Diff" {
+				n++
+				c.Unresolved(rule, f.Name()+":hand-made-chunk"+ifStr(n > 1, "#"+itoa(n)), cl.Pos(), "a diff chunk is built by hand instead of coming out of the line-mode conversion: whether its text consists of whole lines is not decidable here")
+			}
+			return true
+		})
+	}
+	if n == 0 {
+		c.Hold(rule, short+":no-hand-made-chunks", fi.Decl.Pos(), "every chunk comes out of the line-mode conversion")
 	}
 }
 
